@@ -167,6 +167,15 @@ class Data2D(Block):
             f"startTime={self.startTime} flags={self.flags.name} >"
         )
 
+    @staticmethod
+    def _same_points(a, b) -> bool:
+        "A cell without points is stored as None or as an empty array; both mean the same"
+        a_empty = a is None or len(a) == 0
+        b_empty = b is None or len(b) == 0
+        if a_empty or b_empty:
+            return a_empty and b_empty
+        return np.array_equal(a, b)
+
     def __eq__(self, o: object) -> bool:
         if not isinstance(o, Data2D):
             return False
@@ -176,8 +185,9 @@ class Data2D(Block):
             and self.frequency == o.frequency
             and self.startTime == o.startTime
             and self.flags == o.flags
+            and np.array_equal(self._camMap, o._camMap)
             and all(
-                np.array_equal(self.data[i, j], o.data[i, j])
+                self._same_points(self.data[i, j], o.data[i, j])
                 for i in range(self.nFrames)
                 for j in range(self.nCams)
             )
